@@ -452,6 +452,7 @@ pub fn c01(ctx: &mut Ctx) -> R {
         let obs = ex.run(ctx, start)?;
         total_calls += obs.calls;
         ctx.sig3(obs.edges.len() as u64, obs.calls.min(200) as u64, obs.overflow_retries.min(7) as u64);
+        ctx.sig(obs.schedule_sig());
         for e in &obs.edges {
             ctx.sig3(e.0.len() as u64, e.1.len() as u64, 0);
         }
@@ -660,6 +661,7 @@ pub fn c06(ctx: &mut Ctx) -> R {
     let ex = Exchange { prop: "C06", body: &body, policy, server: ServerPlan { msgs: vec![], close_after: plan.truth == RF::Close }, fixed_stream: Some(FixedStream { stream: &stream, consumed: 0, visible: 0, arrivals }) };
     let obs = ex.run(ctx, start)?;
     ctx.sig3(cell as u64, obs.edges.len() as u64, obs.terminal.name().len() as u64);
+    ctx.sig(obs.schedule_sig());
     ctx.nontrivial = true;
     let entered_body = obs.edges.iter().any(|e| e.1 == "RecvBody");
     let key = format!("{:?}", plan.truth);
@@ -937,6 +939,7 @@ pub fn c10(ctx: &mut Ctx) -> R {
     }
     ctx.cell((mask as u32) * 2 + (obs.terminal.name() == "Redirect") as u32);
     ctx.sig3(mask, obs.edges.len() as u64, (obs.terminal.name() == "Redirect") as u64);
+    ctx.sig(obs.schedule_sig());
     if rc.len() == 5 {
         ctx.count("p:all_five_conditions");
     }
@@ -1110,6 +1113,7 @@ pub fn c11(ctx: &mut Ctx) -> R {
     let ex = Exchange { prop: "C11", body: &body, policy, server: ServerPlan { msgs, close_after: final_plan.truth == RF::Close }, fixed_stream: None };
     let obs = ex.run(ctx, start)?;
 
+    ctx.sig(obs.schedule_sig());
     // ---- per-look oracle against the ground-truth first head
     let is_100 = script <= 1;
     let mut decided_refuse = false;
